@@ -5,6 +5,8 @@ shard: steps = list of "A" | "B" (data frame from sender A / B) | "sub0" | "sub1
                | "timing" | "traffic" | "info" (periodic / manager-originated messages)
        rsub  = per recipient 0: subscribed to tA, 1: to tB, 2: to ALL, 3: to tA and tB
        xdrop = 1: a third module subscribed to tA is not ready, so every A frame also produces a FAILED_MESSAGE
+       r0skip = list of step indices at which recipient 0 is NOT ready to accept data (what is due to it then is dropped and
+                reported, not written): the frames it does get afterwards must still be numbered without a gap
 symbolic: tA, tB (data types), payload sizes nA, nB 0..65535, the recipients' msg_count before the sequence,
           the type subscribed in "subN" steps
 """
@@ -47,6 +49,8 @@ def scenario(tA, tB, nA, nB, c0, c1, ts):
     with disable_message_validation():
         for i, st in enumerate(steps):
             tag = 100 + i
+            if sh("r0skip") is not None:
+                mm.wlist = [c for c in (R[0].conn, R[1].conn, A.conn, B.conn) if not (c is R[0].conn and i in sh("r0skip"))]
             if st in ("A", "B"):
                 t, n, src = (tA, nA, A) if st == "A" else (tB, nB, B)
                 W.set_incoming(mm, dict(msg_type=t, src_mod_id=src.mod_id, dest_mod_id=0, dest_host_id=0, num_data_bytes=n,
